@@ -107,6 +107,7 @@ package datafile
 //@   ensures [inv-kept]     len(reader.blockBuf) == 32768 && (result2 == nil ==> reader.offset + 7 < 32768 && reader.blockID <= reader.dataFile.lastBlockID + 1)
 //@   ensures [pos]          result2 == nil ==> result1 != nil && fresh(result1) && result1.Fid == reader.dataFile.ID && result1.BlockID == old(reader.blockID) && result1.Offset == old(reader.offset)
 //@   ensures [advances]     result2 == nil ==> reader.blockID * 32768 + reader.offset > abs0
+//@   ensures [eof-rewinds-to-the-record-start] result2 == io.EOF ==> reader.blockID == old(reader.blockID) && reader.offset == old(reader.offset)
 //@   ensures [err-no-data]  result2 != nil ==> result1 == nil && len(result0) == 0
 //@   ensures [res-own]      len(result0) == 0 || fresh(result0)
 //@   ensures [foreign-errors] !engineErr(result2)
@@ -339,8 +340,9 @@ package datafile
 //@   requires [kind]   reader.dataFile.kind == DataFileSuffix
 //@   let fsz = reader.dataFile.lastBlockID * 32768 + reader.dataFile.lastBlockSize
 //@   let abs0 = old(reader.blockID) * 32768 + old(reader.offset)
-//@   ensures [inv-reader] result2 == nil ==> INV_reader(reader)
+//@   ensures [inv-reader] result2 == nil || result2 == io.EOF ==> INV_reader(reader)
 //@   ensures [eof-exact] !reader.dataFile.closed && abs0 >= fsz ==> result2 == io.EOF
+//@   ensures [eof-rewinds-to-the-record-start] result2 == io.EOF ==> reader.blockID == old(reader.blockID) && reader.offset == old(reader.offset)
 //@   ensures [record]  result2 == nil ==> result0 != nil && fresh(result0) && result1 != nil && fresh(result1) && result1.Fid == reader.dataFile.ID && result1.BlockID == old(reader.blockID) && result1.Offset == old(reader.offset)
 //@   ensures [err]     result2 != nil ==> result0 == nil && result1 == nil
 //@   ensures [foreign-errors] !engineErr(result2)
@@ -386,3 +388,6 @@ package datafile
 //@   ensures [empty-file-reads-zero] df.ReadWriter.size == 0 ==> result0 == 0 && result1 == 0
 //@   ensures [fs-kept] fs == old(fs)
 //@   modifies nothing
+
+//@ func (*datafile.DataReader).Offset
+//@   inline
